@@ -206,10 +206,10 @@ func min64(a, b uint64) uint64 {
 
 func (g *gen) lastApplied() uint64 {
 	r := g.ref
-	switch g.r.Intn(4) {
-	case 0:
+	switch g.r.Intn(6) {
+	case 0, 1, 2:
 		return r.processed
-	case 1:
+	case 3:
 		return 0
 	default:
 		return uint64(g.r.Intn(int(r.processed) + 1))
@@ -393,5 +393,23 @@ func genCase(r *vh.Rand, i int, tier string) string {
 			g.wfStep()
 		}
 	}
-	return fmt.Sprintf("I %d %d %d %d %d %s | %s", mi, mt, committed, limit, wf, showEnts(ents), strings.Join(g.ops, " ; "))
+	// dimensions without a counterpart in the operation sequence
+	opts := ""
+	switch r.Intn(6) {
+	case 0, 1: // a real rate limiter under inMemory
+		opts += fmt.Sprintf(" rl=%d", []uint64{1, 500, 100000, 1 << 40}[r.Intn(4)])
+	case 2: // present but not enabled
+		opts += fmt.Sprintf(" rl=%d", []uint64{0, ^uint64(0)}[r.Intn(2)])
+	}
+	if r.Chance(3, 4) { // small capacity thresholds so that resize()/shrunk are crossed all the time
+		ss := [][2]uint64{{2, 1}, {4, 1}, {4, 3}, {8, 3}, {16, 15}, {6, 2}}[r.Intn(6)]
+		opts += fmt.Sprintf(" ss=%d:%d", ss[0], ss[1])
+	}
+	switch r.Intn(4) {
+	case 0:
+		opts += " st=plain"
+	case 1:
+		opts += " st=batched"
+	}
+	return fmt.Sprintf("I %d %d %d %d %d %s%s | %s", mi, mt, committed, limit, wf, showEnts(ents), opts, strings.Join(g.ops, " ; "))
 }
